@@ -128,6 +128,7 @@ open ConjureVerif.Boxing
 
 /-- the functions that decide what is held by value and what behind a `Box`, and the three places that call them -/
 theorem gen_boxing_sources :
+    Gen.CodegenContextSrc.hashes.lookup "Context::is_double" = some 3262876863850417085 /- "{matchdef{Type::Primitive(PrimitiveType::Double)=>true,Type::Optional(def)=>self.is_double(def.item_type()),Type::List(def)=>self.is_double(def.item_type()),Type::Map(def)=>self.is_double(def.value_type()),Type::Primitive(_)|Type::Set(_)|Type::Reference(_)=>false,Type::External(def)=>self.is_double(def.fallback()),}}" -/ ∧
     Gen.CodegenContextSrc.hashes.lookup "Context::needs_box" = some 6212673282279784620 /- "{matchdef{Type::Primitive(_)=>false,Type::Optional(def)=>self.needs_box(def.item_type()),Type::List(_)|Type::Set(_)|Type::Map(_)=>false,Type::Reference(def)=>self.ref_needs_box(def),Type::External(def)=>self.needs_box(def.fallback()),}}" -/ ∧
     Gen.CodegenContextSrc.hashes.lookup "Context::ref_needs_box" = some 16980039490533604179 /- "{letctx=&self.types[name];match&ctx.def{TypeDefinition::Alias(def)=>self.needs_box(def.alias()),TypeDefinition::Enum(_)=>false,TypeDefinition::Object(_)|TypeDefinition::Union(_)=>true,}}" -/ ∧
     Gen.CodegenContextSrc.hashes.lookup "Context::rust_type_inner" = some 759703829858553174 /- "{matchdef{Type::Primitive(def)=>match*def{PrimitiveType::String=>self.string_ident(this_type),PrimitiveType::Datetime=>quote!(conjure_object::DateTime<conjure_object::Utc>),PrimitiveType::Integer=>quote!(i32),PrimitiveType::Double=>{ifkey{quote!(conjure_object::DoubleKey)}else{quote!(f64)}}PrimitiveType::Safelong=>quote!(conjure_object::SafeLong),PrimitiveType::Binary=>quote!(conjure_object::Bytes),PrimitiveType::Any=>quote!(conjure_object::Any),PrimitiveType::Boolean=>quote!(bool),PrimitiveType::Uuid=>quote!(conjure_object::Uuid),PrimitiveType::Rid=>quote!(conjure_object::ResourceIdentifier),PrimitiveType::Bearertoken=>quote!(conjure_object::BearerToken),},Type::Optional(def)=>{letoption=self.option_ident(this_type);letitem=self.rust_type_inner(this_type,def.item_type(),key);quote!(#option<#item>)}Type::List(def)=>{letvec=self.vec_ident(this_type);letitem=self.rust_type_inner(this_type,def.item_type(),key);quote!(#vec<#item>)}Type::Set(def)=>{letitem=self.rust_type_inner(this_type,def.item_type(),true);quote!(std::collections::BTreeSet<#item>)}Type::Map(def)=>{letvalue=self.rust_type_inner(this_type,def.value_type(),key);letkey=self.rust_type_inner(this_type,def.key_type(),true);quote!(std::collections::BTreeMap<#key,#value>)}Type::Reference(def)=>self.type_path(this_type,def),Type::External(def)=>self.rust_type_inner(this_type,def.fallback(),key),}}" -/ ∧
@@ -193,6 +194,15 @@ of imported types; so every `BTreeSet<T>` and `BTreeMap<K, _>` it names, at any 
 theorem C03_set_items_and_keys_are_ordered (t : CTy) :
     usable (rustType false t) = true ∧ ordOk (rustType true t) = true :=
   ⟨usable_rustType false t, ordOk_key t⟩
+
+/-- **each field is compared by something that exists**: a field the generator gives the `DoubleOps` methods
+(`is_double`) has a Rust type they are implemented for; every other field has a Rust type with a total order, equality
+and hash of its own — so the `Educe` / `derive` lines written for objects, unions and aliases compile whatever the
+field types are -/
+theorem C03_double_methods_fit (t : CTy) :
+    (isDouble t = true → doubleOpsOk (rustType false t) = true) ∧
+    (isDouble t = false → ordOk (rustType false t) = true) :=
+  ⟨isDouble_true_ops t, isDouble_false_ord t⟩
 
 /-- the rule as it was before D15 was repaired fails exactly this: `set<map<string, double>>` -/
 theorem C03_old_rule_witness :
